@@ -96,6 +96,9 @@ type run struct {
 	allocCtr int
 	atomic   bool // detected: Put holds the lock across the copy
 
+	mcur *mthr         // meta-writer goroutine that is the one running (metawriters.go)
+	mths map[int]*mthr // meta-writer callers in flight
+
 	gcCur *gthr // the GC goroutine while it is the one running
 	gcThr *gthr // the GC call in progress (parked between two of its steps)
 
@@ -156,6 +159,8 @@ func (r *run) opNew() {
 	r.ctl = newCtl(dir)
 	r.ctl.park = r.park
 	r.ctl.gcPark = r.gcPark
+	r.ctl.metaPark = r.metaPark
+	r.mths, r.mcur = map[int]*mthr{}, nil
 	r.gcThr, r.gcCur = nil, nil
 	r.want = map[int64][]byte{}
 	r.ths = map[int]*thr{}
@@ -926,6 +931,7 @@ func (a area) Run(c *core.Ctx) error {
 					c.Fail("harness-panic", fmt.Sprint(p))
 				}
 				r.drainQuiet()
+				func() { defer func() { _ = recover() }(); r.mwDrain(false) }()
 				func() { defer func() { _ = recover() }(); r.finishGC() }()
 				r.cleanup()
 			}()
@@ -947,6 +953,8 @@ func (a area) Run(c *core.Ctx) error {
 				r.resetCase(rng)
 			case i == 7:
 				r.stressCase(rng, 8, 1500)
+			case i == 14:
+				r.mwWitnessCase(rng)
 			case c.Tier == "thorough" && i >= 8 && i <= 12:
 				// one below / one above the index page boundary, the second boundary, GC overlap with pending messages
 				switch i {
@@ -974,6 +982,8 @@ func (a area) Run(c *core.Ctx) error {
 					r.fctCase(rng) // page factory driven directly (factory.go)
 				case i%10 == 9:
 					r.partCase(rng) // replica/partition.go glue over a real FanOutQueue (partition.go)
+				case i%10 == 4:
+					r.mwCase(rng) // the writers of the meta page as scheduled goroutines (metawriters.go)
 				case k < 48:
 					r.seqCase(rng)
 				case k < 60:
